@@ -240,7 +240,48 @@ def fam_redefs():
     return out
 
 
-FAMILIES = {'redefs': fam_redefs, 'lists': fam_lists, 'dispatch': fam_dispatch, 'macros': fam_macros, 'repeat': fam_repeat, 'ids': fam_ids,
+# ---- U: non-ASCII text and unusual white space --------------------------------------------------
+UWORDS = ['\u00e9t\u00e9', 'Stra\u00dfe', '\u65e5\u672c', '\u03a9mega', '\u01c5x', '\u0663\u0664', 'na\u00efve', '\u00c9COLE', 'x\u00a0y', 'a\u2028b', 'a\u000bb', 'a\u000cb',
+          'a\u0085b', 'a\u200bb', 'a\u3000b', '\ufb01n', '\u212a', 'e\u0301', '\U0001f600', '\u00aa\u00ba']
+UCTX = ['# %s', '## %s %s', '.#%s\npara', '.%s\npara', '."c:%s"\npara', '.[title="%s"]\npara', '- %s', '%s:: d', 't:: %s', '*%s*', '`%s`', '_%s_ x_%s',
+        '[%s](%s)', '<http://%s.b|%s>', '<%s@x.yz>', 'http://a.b/%s', '<image:%s|%s>', '<<#%s>>', '&%s;', '{%s}=\'V\'\n{%s}', "{m}='$1'\n{m|%s}",
+        '<div class="%s">x</div>', '``\n%s\n``', '  %s', '> %s', '%s', '\u00a0- %s', '-\u00a0%s', '\u3000%s', '%s\u00a0', '..\u00a0%s\nd\n..', "= = '<%s>|</%s>'\n=x=",
+        "/%s/ = 'R'\nx %s y", "/(%s)/i = '[$1]'\nx %s y", '.safeMode=\'\u0663\'\n<b>', '{m%s}', '\\%s', '%s \\\nnext']
+
+
+def fam_unicode():
+    out = []
+    for c, w in itertools.product(UCTX, UWORDS):
+        src = c.replace('%s', w)
+        out.append(one("{--header-ids}='1'\n" + src + '\n\n' + src, 0))
+        if hash_small(src) % 3 == 0:
+            out.append(one(src, 1))
+            out.append(one(src, 15))
+    return out
+
+
+# ---- N: containers in containers; every block as the last line ------------------------------------
+def fam_nesting():
+    wrap = [('..\n', '\n..'), ('.. c1\n', '\n..'), ('""\n', '\n""'), ('"" cite\n', '\n""'), ('>>\n', '\n>>'), ('- a\n\n..\n', '\n..'), ('- a\n..\n', '\n..'),
+            ('t::\n..\n', '\n..'), ('.+container\n  ', ''), ('.+container\n> ', ''), ('<div>\n', '\n</div>'), ('.+macros +spans\n``\n', '\n``'), ('/*\n', '\n*/')]
+    inner = ['para *e*', '# H', '- i\n- j', '. i\n.. j', 't:: d', '``\ncode\n``', '  ind', '> q', '<p>h</p>', '<!-- c -->', "{m}='V'\n{m}", '.cls #i\npara',
+             '..\nx\n..', '""\ny\n""', '- a\n\n  attached', '- a\n``\nc\n``', '{u}', 'x\n\n\ny', '', ' ', '\\..', '..']
+    out = []
+    for (a, b), (c, d), i in itertools.product(wrap, wrap, inner):
+        if hash_small(a + c + i) % 2:
+            continue
+        out.append(one(a + c + i + d + b + '\n\nafter', 0))
+    for (a, b), i in itertools.product(wrap, inner):
+        out.append(one(a + i + b, 1))
+        out.append(one('before\n\n' + a + i + b, 0))
+    # every block kind as the last line, with and without a trailing terminator or blanks
+    for i in inner + ['# H ##', '<image:a.png>', '<<#a>>', '// c', ".safeMode='1'", "= = '<u>|</u>'", '/a/=\'b\'', "|code|='-specials'", '.cls', '{m}=\'open', '``', '..', '""', '/*', '<div>']:
+        for tail in ['', '\n', '\n\n', ' ', '  \n', '\r\n', '\r', '\n \n']:
+            out.append(one('first\n\n' + i + tail, 0))
+    return out
+
+
+FAMILIES = {'unicode': fam_unicode, 'nesting': fam_nesting, 'redefs': fam_redefs, 'lists': fam_lists, 'dispatch': fam_dispatch, 'macros': fam_macros, 'repeat': fam_repeat, 'ids': fam_ids,
             'options': fam_options, 'blockdefs': fam_blockdefs, 'attrs': fam_attrs, 'inline': fam_inline}
 
 _cache = {}
